@@ -153,6 +153,7 @@ func plumbIssues(rs *Resid, plugin string) []sideIssue {
 	// unwind f(a)(b)
 	var calls []*ast.CallExpr
 	for e := callExpr; e != nil; {
+		e = unparen(e) // (f)(a, b) and (f(a))(b) call what f(a, b) and f(a)(b) call
 		c, ok := e.(*ast.CallExpr)
 		if !ok {
 			if id, ok := e.(*ast.Ident); !ok || id.Name != fname {
